@@ -543,32 +543,64 @@ func murmurLongSection(vals []uint64) {
 
 // ---------------------------------------------------------------- section 3: Hexa32
 
-func hexaForm(n int64, s string) string {
+// refToString32 is an independent reference encoder of the identifier text, written from the
+// documented form (not from the code under test, not from the Lean model): 0..9 ↦ the decimal digit;
+// ≥ 10 ↦ "x" + radix-32 digits of n; < 0 ↦ "z" + radix-32 digits of |n| (so MinInt64 ↦ "z8000000000000");
+// radix-32 digits are 0-9a-v, most significant first, no leading zero (strconv.FormatUint base 32).
+func refToString32(n int64) string {
 	switch {
-	case n == math.MinInt64:
-		if s != "z8000000000000" {
-			return "min↦z8000000000000"
-		}
+	case n < 0:
+		return "z" + strconv.FormatUint(uint64(-(n+1))+1, 32)
+	case n < 10:
+		return strconv.FormatInt(n, 10)
+	default:
+		return "x" + strconv.FormatUint(uint64(n), 32)
+	}
+}
+
+// canonicalText32 evaluates the canonical-form clauses on a text produced for n and names the first
+// clause that fails ("" if none): prefix, alphabet, no leading zero, minimal length, equality with the
+// reference encoder.
+func canonicalText32(n int64, s string) string {
+	want := refToString32(n)
+	if s == want {
+		return ""
+	}
+	digits := s
+	switch {
 	case n < 0:
 		if len(s) < 2 || s[0] != 'z' {
-			return "negative↦z…"
+			return "prefix: a negative number is written z…"
 		}
+		digits = s[1:]
 	case n < 10:
-		if s != string(rune('0'+n)) {
-			return "0..9↦digit"
-		}
+		return "0..9 are written as the decimal digit"
 	default:
 		if len(s) < 2 || s[0] != 'x' {
-			return "≥10↦x…"
+			return "prefix: a number ≥ 10 is written x…"
+		}
+		digits = s[1:]
+	}
+	for i := 0; i < len(digits); i++ {
+		c := digits[i]
+		if !(c >= '0' && c <= '9' || c >= 'a' && c <= 'v') {
+			return fmt.Sprintf("alphabet: digit %q at position %d is not in 0-9a-v", c, i)
 		}
 	}
-	return ""
+	if digits[0] == '0' {
+		return "leading zero digit"
+	}
+	if len(digits) != len(want)-1 {
+		return fmt.Sprintf("length: %d digits, the magnitude has %d base-32 digits", len(digits), len(want)-1)
+	}
+	return "digits differ from the radix-32 expansion of the magnitude"
 }
 
 func evalHexa(n int64, line string) string {
 	var s string
-	var back int64
-	o := vh.Guard(func() { s = hexa32.ToString32(n); back = hexa32.ToLong32(s) })
+	var back, backRef int64
+	ref := refToString32(n)
+	o := vh.Guard(func() { s = hexa32.ToString32(n); back = hexa32.ToLong32(s); backRef = hexa32.ToLong32(ref) })
 	if !o.OK() {
 		failProp("Hexa32:panic", fmt.Sprintf("ToString32/ToLong32 panicked on %d", n), replay{Op: line, Detail: o.Panic})
 		return "panic"
@@ -576,8 +608,15 @@ func evalHexa(n int64, line string) string {
 	if back != n {
 		failProp("Hexa32:roundtrip", fmt.Sprintf("ToLong32(ToString32(%d)) = ToLong32(%q) = %d", n, s, back), replay{Op: line, Impl: fmt.Sprintf("%s %d", s, back)})
 	}
-	if f := hexaForm(n, s); f != "" {
-		failProp("Hexa32:documented-form", fmt.Sprintf("ToString32(%d) = %q violates %s", n, s, f), replay{Op: line, Impl: s})
+	// the encoding is the stated function, not just an invertible one: canonical form, evaluated directly
+	if why := canonicalText32(n, s); why != "" {
+		failProp("ToString32:non-canonical-text", fmt.Sprintf("ToString32(%d) = %q, the stated encoding is %q (%s)", n, s, ref, why),
+			replay{Op: line, Impl: s, Model: ref, Detail: why})
+	}
+	// the decoder on the canonical text, independently of the encoder under test
+	if backRef != n {
+		failProp("ToLong32:canonical-text-decodes-wrong", fmt.Sprintf("ToLong32(%q) = %d, the text is the stated encoding of %d", ref, backRef, n),
+			replay{Op: line, Impl: fmt.Sprint(backRef), Model: fmt.Sprint(n)})
 	}
 	return fmt.Sprintf("%s %d", vh.Hex([]byte(s)), back)
 }
@@ -613,7 +652,7 @@ func hexaSection(vals []int64, withDriver bool) {
 			rep.Sample(map[string]string{"op": lines[i], "impl": impls[i], "model": m})
 		}
 		if withDriver && impls[i] != outs[i] && impls[i] != "panic" {
-			failCorr("Hexa32:text-differs-from-model", fmt.Sprintf("ToString32(%d): implementation %s, model %s (hex text, decoded value)", v, impls[i], outs[i]),
+			failCorr("ToString32:text-differs-from-model", fmt.Sprintf("ToString32(%d): implementation %s, model %s (hex text, decoded value)", v, impls[i], outs[i]),
 				replay{Op: lines[i], Impl: impls[i], Model: outs[i]})
 		}
 	}
@@ -655,12 +694,21 @@ func hexaBoundaries() []int64 {
 			add(p + d)
 			add(-p + d)
 			add(10*p + d) // 'a' digit boundary
-			add(p*31 + d)
+			add(-10*p + d)
+			add(p*31 + d) // 'v' digit boundary
+			add(-p*31 + d)
+			if k < 12 { // 33·32^k: one past the largest leading "10" pattern; overflows for k = 12
+				add(p*33 + d)
+				add(-p*33 + d)
+				add(p*32 + d)
+				add(-p*32 + d)
+			}
 		}
 		if k < 12 {
 			p *= 32
 		}
 	}
+	add(math.MinInt64)
 	for d := int64(0); d < 3000; d++ {
 		add(math.MinInt64 + d)
 		add(math.MaxInt64 - d)
@@ -821,6 +869,16 @@ func ipProps(a uint32) string {
 	} else if s2 := iputil.ToString(back); s2 != s {
 		failProp("iputil:ToString-of-ToBytes", fmt.Sprintf("ToString(ToBytes(%q)) = %q", s, s2), replay{Op: "IB " + vh.Hex([]byte(s))})
 	}
+	// canonical text clauses, against the independent dotted-quad writer
+	m := mirrorDotted(a)
+	if bm := iputil.ToBytes(m); len(bm) != 4 || bm[0] != b[0] || bm[1] != b[1] || bm[2] != b[2] || bm[3] != b[3] {
+		failProp("iputil:ToBytes-canonical-text-decodes-wrong", fmt.Sprintf("ToBytes(%q) = %v, the text is the dotted quad of %v", m, bm, b), replay{Op: "IB " + vh.Hex([]byte(m))})
+	}
+	for _, t := range []string{iputil.ToStringFrInt(i), iputil.ToStringInt(i)} {
+		if t != m {
+			failProp("iputil:ToString-non-canonical-text", fmt.Sprintf("ToStringFrInt/ToStringInt(%d) = %q, the dotted quad of the address is %q", i, t, m), replay{Op: fmt.Sprintf("II %d", i), Impl: t, Model: m})
+		}
+	}
 	bi := iputil.ToBytesFrInt(i)
 	if len(bi) != 4 || bi[0] != b[0] || bi[1] != b[1] || bi[2] != b[2] || bi[3] != b[3] {
 		failProp("iputil:ToBytesFrInt-big-endian", fmt.Sprintf("ToBytesFrInt(%d) = %v", i, bi), replay{Op: fmt.Sprintf("II %d", i)})
@@ -872,7 +930,7 @@ func ipSection(addrs []uint32) {
 		b := ipBytes(a)
 		s := texts[k]
 		if m := mirrorDotted(a); m != s {
-			failCorr("iputil:ToString-differs-from-mirror", fmt.Sprintf("ToString(%v) = %q, mirror %q", b, s, m), replay{Op: "IS " + vh.Hex(b), Impl: s, Model: m})
+			failProp("iputil:ToString-non-canonical-text", fmt.Sprintf("ToString(%v) = %q, the dotted quad of the address is %q", b, s, m), replay{Op: "IS " + vh.Hex(b), Impl: s, Model: m})
 		}
 		lines = append(lines, "IS "+vh.Hex(b), "IB "+vh.Hex([]byte(s)), fmt.Sprintf("II %d", int32(a)), "IT "+vh.Hex(b))
 		impls = append(impls, vh.Hex([]byte(s)), vh.Hex(iputil.ToBytes(s)),
@@ -994,7 +1052,7 @@ func ipFull() {
 				for lo := uint32(0); ; lo++ {
 					a := sh<<24 | lo
 					if s := ipPropsCore(a); s != mirrorDotted(a) {
-						failCorr("iputil:ToString-differs-from-mirror", fmt.Sprintf("ToString(%v) = %q", ipBytes(a), s), replay{Op: "IS " + vh.Hex(ipBytes(a)), Impl: s, Model: mirrorDotted(a)})
+						failProp("iputil:ToString-non-canonical-text", fmt.Sprintf("ToString(%v) = %q, the dotted quad of the address is %q", ipBytes(a), s, mirrorDotted(a)), replay{Op: "IS " + vh.Hex(ipBytes(a)), Impl: s, Model: mirrorDotted(a)})
 					}
 					if lo == 1<<24-1 {
 						break
@@ -1138,7 +1196,7 @@ func main() {
 	rng := vh.NewRng(env.Seed)
 	rep.Rule = "hash inputs: every byte string of length ≤ 2 plus random strings (lengths 0..64 mostly, block-size boundaries, some 1–4 KiB, text-like, constant runs); " +
 		"a case is the canonical op line (function family + input); non-trivial = non-empty input (hashes), every integer (Hexa32: ±32^k±2, k=0..12, 3000 values at each extreme and around 0, the overflow-guard neighbourhood, random), " +
-		"every (high, low, src) triple (bitutil: boundary×boundary, all byte pairs, random), every address (IPv4: boundaries + strided in quick, all 2^32 in thorough). " +
+		"Hexa32 boundaries: 32^k±2, 10·32^k±2, 31·32^k±2, 32·32^k±2, 33·32^k±2 for all k, both signs, MinInt64; the text of every explored number is compared with an independent reference encoder (prefix, alphabet 0-9a-v, no leading zero, minimal length) and the reference text is decoded; every (high, low, src) triple (bitutil: boundary×boundary, all byte pairs, random), every address (IPv4: boundaries + strided in quick, all 2^32 in thorough). " +
 		"Distinct = distinct canonical op lines (bulk sweeps beyond the first 400000 registered cases are distinct by construction and counted in extra.bulk_distinct)."
 	if env.Replay != "" {
 		runReplay(env.Replay)
